@@ -176,5 +176,40 @@ def runeCountAux : Nat → List UInt8 → Nat
 
 def runeCount (s : List UInt8) : Nat := runeCountAux s.length s
 
+/-- Go's rune decoding (`for _, r := range s`, `utf8.DecodeRuneInString`): the code points of the string, a byte that
+    does not start a valid encoding giving U+FFFD (width 1) -/
+def decodeRunesAux : Nat → List UInt8 → List Nat
+  | 0, _ => []
+  | _, [] => []
+  | fuel + 1, b :: rest =>
+    let cont (x : UInt8) : Bool := x ≥ 0x80 && x < 0xC0
+    let bad := 0xFFFD :: decodeRunesAux fuel rest
+    if b < 0x80 then b.toNat :: decodeRunesAux fuel rest
+    else if b ≥ 0xC2 && b < 0xE0 then
+      match rest with
+      | c1 :: r => if cont c1 then ((b.toNat - 0xC0) * 64 + (c1.toNat - 0x80)) :: decodeRunesAux fuel r else bad
+      | _ => bad
+    else if b ≥ 0xE0 && b < 0xF0 then
+      match rest with
+      | c1 :: c2 :: r =>
+        let lo : UInt8 := if b == 0xE0 then 0xA0 else 0x80
+        let hi : UInt8 := if b == 0xED then 0x9F else 0xBF
+        if c1 ≥ lo && c1 ≤ hi && cont c2 then
+          ((b.toNat - 0xE0) * 4096 + (c1.toNat - 0x80) * 64 + (c2.toNat - 0x80)) :: decodeRunesAux fuel r
+        else bad
+      | _ => bad
+    else if b ≥ 0xF0 && b < 0xF5 then
+      match rest with
+      | c1 :: c2 :: c3 :: r =>
+        let lo : UInt8 := if b == 0xF0 then 0x90 else 0x80
+        let hi : UInt8 := if b == 0xF4 then 0x8F else 0xBF
+        if c1 ≥ lo && c1 ≤ hi && cont c2 && cont c3 then
+          ((b.toNat - 0xF0) * 262144 + (c1.toNat - 0x80) * 4096 + (c2.toNat - 0x80) * 64 + (c3.toNat - 0x80)) :: decodeRunesAux fuel r
+        else bad
+      | _ => bad
+    else bad
+
+def decodeRunes (s : List UInt8) : List Nat := decodeRunesAux s.length s
+
 end GoVal
 end VM
